@@ -1,0 +1,56 @@
+//go:build verif
+
+package network
+
+import (
+	"crypto/cipher"
+	"crypto/ecdsa"
+	"math/big"
+	"net"
+)
+
+// Add-only hooks for /verif property C31 (encrypted peer channel). Thin wrappers, no logic.
+
+// VerifC31NewAead builds a SecureAead around a caller supplied cipher.AEAD (same
+// field initialisation as newSecureAead).
+func VerifC31NewAead(conn net.Conn, aead cipher.AEAD) *SecureAead {
+	return &SecureAead{conn: conn, aead: aead, nonce: make([]byte, aead.NonceSize())}
+}
+
+// VerifC31NewSuiteAead is newSecureAead.
+func VerifC31NewSuiteAead(conn net.Conn, sa byte, secret []byte) (*SecureAead, error) {
+	return newSecureAead(conn, SecureAeadSuite(sa), secret)
+}
+
+func (sa *SecureAead) VerifC31Nonce() []byte { return append([]byte{}, sa.nonce...) }
+func (sa *SecureAead) VerifC31Overhead() int { return sa.aead.Overhead() }
+
+type VerifC31Key struct{ k *secureKey }
+
+// VerifC31KeyFromD: a secureKey on DefaultSecureEllipticCurve with the given private scalar.
+func VerifC31KeyFromD(d []byte) *VerifC31Key {
+	c := DefaultSecureEllipticCurve
+	x, y := c.ScalarBaseMult(d)
+	pk := &ecdsa.PrivateKey{PublicKey: ecdsa.PublicKey{Curve: c, X: x, Y: y}, D: new(big.Int).SetBytes(d)}
+	return &VerifC31Key{&secureKey{PrivateKey: pk}}
+}
+
+// VerifC31KeyFromSecrets: a secureKey after setup with the given secrets / direction flag.
+func VerifC31KeyFromSecrets(secrets [][]byte, isLower bool) *VerifC31Key {
+	return &VerifC31Key{&secureKey{secret: secrets, isLower: isLower}}
+}
+
+func (v *VerifC31Key) Public() []byte           { return v.k.marshalPublicKey() }
+func (v *VerifC31Key) XY() (*big.Int, *big.Int) { return v.k.X, v.k.Y }
+func (v *VerifC31Key) IsLower() bool            { return v.k.isLower }
+func (v *VerifC31Key) Secrets() [][]byte        { return v.k.secret }
+func (v *VerifC31Key) Extra() []byte            { return v.k.extra }
+func (v *VerifC31Key) Setup(sa byte, peerPublicKey []byte, defaultLower bool, numOfSecret int) error {
+	return v.k.setup(SecureAeadSuite(sa), peerPublicKey, defaultLower, numOfSecret)
+}
+func (v *VerifC31Key) NewSecureConn(conn net.Conn, sa byte) (*SecureConn, error) {
+	return NewSecureConn(conn, SecureAeadSuite(sa), v.k)
+}
+
+// VerifC31ConnSecrets: the secrets selected by NewSecureConn for the two directions.
+func VerifC31ConnSecrets(c *SecureConn) (in, out []byte) { return c.in.secret, c.out.secret }
